@@ -22,7 +22,10 @@ def cause_of(h, seq, tid=None):
 
 def closing_action(h, seq):
     c = [a for a in h.actions if a['call'] < seq < a['seq']]
-    return min(c, key=lambda a: a['seq']) if c else None
+    # a refused action changes nothing (that is C05's business): prefer the accepted ones; records are pushed
+    # after the call returns, so "returns first" is decided among them only
+    ok = [a for a in c if a['ok']] or c
+    return min(ok, key=lambda a: a['seq']) if ok else None
 
 
 def walk_nodes(wf):
@@ -77,21 +80,33 @@ def mon_c02(h, sc, obs):
     out = []
     facts = model_facts(sc)
     last = {}
+    loaded = {}          # tid -> state a reconstruction from the store gave it (judged only if that instance is used)
     revived = collections.Counter()
     for e in h.states:
         k = (e['pid'], e['tid'])
         old = last.get(k, 'none')
         new = e['new']
         obs['c02.writes'] += 1
+        via = 'set'
         if e['via'] == 'load':
             obs['c02.loads'] += 1
-            if k in last and new != old:
-                # a reconstruction that does not reproduce the last known state is judged as a transition
-                pass
-            else:
+            # the engine also rebuilds processes from the store that it then throws away (restore() of processes that
+            # are cached anyway), and the rows it read can be a moment older than the live task: a reconstruction is
+            # judged when (and only when) the rebuilt instance is written to afterwards
+            if k not in last:
                 last[k] = new
-                continue
-        elif e['old'] != old and k in last:
+            elif new != old:
+                loaded[k] = new
+            continue
+        if k in loaded:
+            ld = loaded.pop(k)
+            if e['old'] == ld and ld != old:
+                # the reloaded instance is live: the reload itself was a transition old -> ld
+                obs['c02.edge:%s:%s->%s' % (e['kind'], old, ld)] += 1
+                if old in TERM or rank(ld) < rank(old):
+                    out.append(V('C02', 'terminal-rewritten' if old in TERM else 'backwards', f"{e['kind']}:{old}->{ld}:by-reload:plain", f"{e['kind']} {e['nid']} ({e['tid']}): {old} -> {ld} by a reload from the store that was then used", seq=e['seq']))
+                old = ld
+        if e['old'] != old and k in last:
             # the hook reads old under its own lock: disagreement means a write bypassed the setters
             out.append(V('C02', 'untraced-write', e['kind'], f"{e['nid']}: trace says {old}, task had {e['old']}", seq=e['seq']))
         obs['c02.edge:%s:%s->%s' % (e['kind'], old, new)] += 1
@@ -101,15 +116,21 @@ def mon_c02(h, sc, obs):
                 obs['c02.catch-revivals'] += 1
             else:
                 why = cause_of(h, e['seq'])
-                if e['via'] == 'load':
-                    why = 'reload'
                 out.append(V('C02', 'terminal-rewritten', f"{e['kind']}:{old}->{new}:by-{why}:{h.race_tag(e['pid'])}", f"{e['kind']} {e['nid']} ({e['tid']}): {old} -> {new} caused by {why}", seq=e['seq']))
         elif rank(new) < rank(old):
-            why = 'reload' if e['via'] == 'load' else cause_of(h, e['seq'])
+            why = cause_of(h, e['seq'])
             out.append(V('C02', 'backwards', f"{e['kind']}:{old}->{new}:by-{why}:{h.race_tag(e['pid'])}", f"{e['kind']} {e['nid']} ({e['tid']}): {old} -> {new} caused by {why}", seq=e['seq']))
         elif rank(new) == rank(old) == 1 and old != new and old != 'ready':
             out.append(V('C02', 'created-refine', f"{e['kind']}:{old}->{new}", f"{e['kind']} {e['nid']}: {old} -> {new}", seq=e['seq']))
         last[k] = new
+    # a reloaded instance that stays live to the end with a state that regresses the last known one
+    final = h.final_tasks()
+    for k, ld in loaded.items():
+        t = final.get(k)
+        old = last.get(k)
+        if t is not None and t['state'] == ld and old is not None and ld != old and (old in TERM or rank(ld) < rank(old)):
+            c = h.create_by.get(k) or {}
+            out.append(V('C02', 'terminal-rewritten' if old in TERM else 'backwards', f"{c.get('kind')}:{old}->{ld}:by-reload:plain", f"{c.get('kind')} {c.get('nid')} ({k[1]}): {old} -> {ld} by a reload from the store; the reloaded instance is the live one at the end"))
     return out
 
 
@@ -478,6 +499,8 @@ def mon_c01(h, sc, obs):
 
 def stranded_reason(h, pid, p, opens):
     """causal discriminator for a stuck process"""
+    if h.hook_stall(pid):
+        return 'hook-child-finished-last'
     pend = [t for t in opens if t['state'] == 'pending']
     if pend:
         # was the deciding sibling already terminal before this branch was initialised?
@@ -560,6 +583,12 @@ def mon_c11(h, sc, obs):
                 if row.get('start_time') != t.get('start_time') or row.get('end_time') != t.get('end_time'):
                     which = 'start_time' if row.get('start_time') != t.get('start_time') else 'end_time'
                     out.append(V('C11', 'task-field', f"{which}:{t['kind']}", f"{t['kind']} {t['nid']}: row {which} {row.get(which)} live {t.get(which)}", seq=seq))
+                try:
+                    rh = sorted(f"{k_}:{len(v_)}" for k_, v_ in json.loads(row.get('hooks') or '{}').items())
+                except Exception:
+                    rh = None
+                if rh is not None and t.get('hooks') is not None and rh != sorted(t['hooks']):
+                    out.append(V('C11', 'task-field', f"hooks:{t['kind']}", f"{t['kind']} {t['nid']}: row hooks {rh} live {sorted(t['hooks'])}", seq=seq))
                 if _norm_err(row.get('err')) != _norm_err(t.get('err')):
                     out.append(V('C11', 'task-field', f"err:{t['kind']}", f"{t['kind']} {t['nid']}: row err {row.get('err')} live {t.get('err')}", seq=seq))
                 try:
